@@ -28,7 +28,9 @@ func C05() int {
 	for i, r := range reps {
 		fsets = append(fsets, Flags{R: r, N: i%2 == 0, B: i%3 != 1, I: i%4 == 0, W: i%5 == 3})
 	}
-	fsets = append(fsets, Flags{}, Flags{N: true}, Flags{B: true}, Flags{F: "db", N: true, B: true}, Flags{F: "db", R: sp("zz")})
+	fsets = append(fsets, Flags{}, Flags{N: true}, Flags{B: true}, Flags{F: "db", N: true, B: true}, Flags{F: "db", R: sp("zz")},
+		// the replacement text is the value placeholder whatever other switches are on: with field-name redaction too
+		Flags{F: "db", R: sp(`n.a. "x" \ y/z`)}, Flags{F: "db", R: sp("geschwärzt 漢")}, Flags{F: "db", R: sp(""), W: true})
 	cells := map[string]int{}
 	ls := newLeafStats()
 	RunCorpus(s, items, fsets, 200, func(sn Seen) {
